@@ -1713,7 +1713,11 @@ class Fxp():
     def like(self, x):
         if isinstance(x, self.__class__):
             new_raw_val = _shift_raw(self.val, x.n_frac - self.n_frac, self.n_word)
-            return  x.deepcopy().set_val(new_raw_val, raw=True)
+            y = x.deepcopy()
+            y.reset()   # the status of the template is not the status of the new object
+            y.set_val(new_raw_val, raw=True)
+            if self.status['inaccuracy']: y.status['inaccuracy'] = True     # propagate inaccuracy from the converted object
+            return y
         else:
             raise ValueError('`x` should be a Fxp object!')
 
